@@ -24,7 +24,7 @@ ASSUMPTIONS = ['master-equation expectation computed with scipy expm on the 3^N 
 BUDGET = {'quick': 170, 'thorough': 1700}
 CHUNK = {'quick': 4, 'thorough': 10}
 CASE_TIMEOUT = 400
-REQUIRED = ['trees_compared', 'tree_node_curves_compared', 'final_sizes_compared', 'final_size_form_sets', 'final_size_form_direct', 'final_size_form_sk0', 'final_size_with_initially_recovered', 'recurrences_checked', 'tau0_models_checked', 'gamma0_pairs_compared']
+REQUIRED = ['trees_compared', 'tree_node_curves_compared', 'final_sizes_compared', 'final_size_form_sets', 'final_size_form_direct', 'final_size_form_sk0', 'final_size_sets_on_multigraph', 'final_size_with_initially_recovered', 'recurrences_checked', 'tau0_models_checked', 'gamma0_pairs_compared']
 
 SIS_SIR_PAIRS = [('SIS_homogeneous_meanfield_from_graph', 'SIR_homogeneous_meanfield_from_graph'), ('SIS_homogeneous_pairwise_from_graph', 'SIR_homogeneous_pairwise_from_graph'),
                  ('SIS_heterogeneous_meanfield_from_graph', 'SIR_heterogeneous_meanfield_from_graph'), ('SIS_heterogeneous_pairwise_from_graph', 'SIR_heterogeneous_pairwise_from_graph'),
@@ -81,6 +81,10 @@ def gen_cases(tier, seed):
             nn = r.choice([6, 8])
             g = nx.random_regular_graph(kk, nn, seed=r.randrange(10 ** 9))
         desc = {'n': g.number_of_nodes(), 'edges': sorted([sorted(e) for e in g.edges()]), 'labels': r.choice(gen.LABEL_SCHEMES)}
+        if kind in ('final', 'final_d') and (j // len(kinds)) % 4 in (1, 2) and r.random() < 0.5:
+            # the raw configuration-model MultiGraph (parallel edges, self-loops), as in the library's own examples
+            mg = nx.configuration_model(degs, seed=r.randrange(10 ** 9))
+            desc = {'n': mg.number_of_nodes(), 'edges': sorted([sorted(e) for e in mg.edges()]), 'labels': desc['labels'], 'multi': True}
         out.append({'kind': kind, 'graph': desc, 'tau': r.choice([0.4, 0.8, 1.5, 3.0]), 'gamma': r.choice([0.5, 1.0, 2.0]), 'rho': r.choice([0.01, 0.05, 0.2]),
                     'p': r.choice([0.2, 0.45, 0.7, 0.95]), 'model_idx': j // len(kinds), 'seed': cs})
     return out
@@ -259,6 +263,8 @@ def run_final(case, res, discrete):
         return
     if form != 'sk0':
         bump(res, 'final_size_form_' + form)
+        if case['graph'].get('multi') and form == 'sets':
+            bump(res, 'final_size_sets_on_multigraph')
     if R0:
         bump(res, 'final_size_with_initially_recovered')
     if abs(a100 - a2000) > 1e-9:
